@@ -43,6 +43,17 @@ theorem C21_arms_independent (w : World ν) (kids : Table ν) (st : SymTab ν)
   | none => simp [resolveArms, resolveStmt]
   | some xb => obtain ⟨x, id⟩ := xb; simp [resolveArms, resolveStmt]
 
+/-- A binder is visible only AFTER (let) / INSIDE (for, match arm) its construct: the defining
+    expression — the `let` initialiser, the `for` iterable, the `match` scrutinee, modelled as a use
+    that precedes the binder — is resolved in the table before the binding, so a name equal to the
+    one being bound means the OUTER declaration there (or is unresolved when there is none). -/
+theorem C21_defining_expression_outside (w : World ν) (kids : Table ν) (st : SymTab ν)
+    (x : ν) (id : Nat) (body rest : List (Stmt ν)) :
+    (resolveStmts w true kids st (.use x :: .letv x id :: rest)).2.head? = some (Res.ofOption (lookup st x)) ∧
+    (resolveStmts w true kids st (.use x :: .forv x id body :: rest)).2.head? = some (Res.ofOption (lookup st x)) ∧
+    (resolveStmts w true kids st (.use x :: .matchv x id body :: rest)).2.head? = some (Res.ofOption (lookup st x)) := by
+  simp [resolveStmts, resolveStmt]
+
 /-- The names visible at file level are exactly: builtins, the prelude, the file's own
     declarations and what each `use` item lets through — all of the imported file's names, only
     the listed ones, all but the `except` list, or just the `as` prefix. -/
